@@ -1,7 +1,8 @@
 -- REGENERATED from /repo by tools/extract on every run. Do not edit.
 namespace CaddyModel.Gen
 
-/-- top-level statements of `adminHandler.serveHTTP` (admin.go) in order: the gates and the mux -/
+/-- the gates in the order `adminHandler.serveHTTP` (admin.go) reaches them, helpers of the same file inlined:
+    remote ACL, websocket refusal, host check, origin check, then the mux -/
 def adminGateSequence : List String := ["acl", "websocket", "host", "origin", "mux"]
 
 def adminMuxIsLastStatement : Bool := true
